@@ -400,7 +400,7 @@ Proof.
   { apply run_app. exists sa. split; auto. cbn [run]. now rewrite EB. }
   destruct (run_refines p WF BF fx _ sc Rbc) as [mc [_ [IVc _]]].
   simpl in EB. unfold do_idle_enter in EB. destruct (st_phase sa) eqn:PA; try discriminate.
-  destruct (_ && _); [|discriminate]. inversion EB; subst sb; clear EB.
+  destruct (existsb _ _); [|discriminate]. inversion EB; subst sb; clear EB.
   destruct (segment mid (set_phase sa PTop) sc) as [_ [_ CL]]; auto; [left; reflexivity|].
   specialize (CL k). simpl in CL.
   simpl in ED. unfold do_idle_exit in ED. destruct (st_phase sc) eqn:PC; try discriminate.
